@@ -1,4 +1,4 @@
-From V Require Import lib.Base model.Lifecycle proofs.LifecycleP gen.Gen_lifecycle.
+From V Require Import lib.Base model.Lifecycle proofs.LifecycleP gen.Gen_lifecycle gen.Gen_stream gen.Gen_dispatch.
 Definition Pgen : lparams :=
   Build_lparams Gen_lifecycle.close_checks_closed_first Gen_lifecycle.close_sets_closed_before_io Gen_lifecycle.close_cleanup_in_finally
                 Gen_lifecycle.close_swallows_eof Gen_lifecycle.cleanup_hook_once_guard Gen_lifecycle.cleanup_clears_in_finally
@@ -9,3 +9,7 @@ Proof. reflexivity. Qed.
 Lemma tie_entry_points : Gen_lifecycle.handle_close_is_cleanup = true /\ Gen_lifecycle.cleanup_default_anyway = true
   /\ Gen_lifecycle.serve_read_eof_closes = true /\ Gen_lifecycle.serve_all_finally_closes = true.
 Proof. repeat split. Qed.
+Definition Fgen : rfacts :=
+  Build_rfacts Gen_stream.closed_stream_raises_eof Gen_lifecycle.cleanup_clears_callbacks Gen_dispatch.async_request_refuses_closed_channel.
+Lemma tie_rfacts : Fgen = std_rfacts.
+Proof. reflexivity. Qed.
